@@ -177,7 +177,7 @@ def handle (c : Case) : Res := Id.run do
   let mut allExact := true
   let mut nAbandonSteps := 0; let mut nKeptSteps := 0; let mut nAbandonEv := 0; let mut nKeptEv := 0
   let mut nFactored := 0; let mut nSameRow := 0; let mut nSamePat := 0; let mut nDofact := 0
-  let mut nExactSteps := 0; let mut nExactAbandon := 0; let mut nResync := 0; let mut nExpand := 0; let mut nEquil := 0
+  let mut nExactSteps := 0; let mut nExactAbandon := 0; let mut nResync := 0; let mut nExpand := 0; let mut nEquil := 0; let mut nReuseExpand := 0
   let mut corrMsg : Option String := none
   let mut transSeen : List String := []
   for k in List.range nsteps do
@@ -281,6 +281,7 @@ def handle (c : Case) : Res := Id.run do
       if fact == "R" ∧ ab > 0 then nAbandonSteps := nAbandonSteps + 1
       if fact == "R" ∧ ab = 0 then nKeptSteps := nKeptSteps + 1
       if sc.pNat "expansions" > 0 then nExpand := nExpand + 1
+      if fact == "R" ∧ sc.pNat "expansions" > 0 then nReuseExpand := nReuseExpand + 1
       -- Corr (a): bit mirror of the pivot routine on every event
       if corrMsg.isNone then
         let ec := match c.ty with
@@ -340,7 +341,7 @@ def handle (c : Case) : Res := Id.run do
   | none => pure ()
   let tags := tags0 ++ [s!"sameRowPermSteps={bucket nSameRow}", s!"abandonSteps={bucket nAbandonSteps}", s!"keptSteps={bucket nKeptSteps}",
                         s!"factoredSteps={bucket nFactored}", s!"samePatternSteps={bucket nSamePat}", s!"refreshSteps={bucket (nDofact - 1)}",
-                        s!"exactAbandonSteps={bucket nExactAbandon}", s!"equilibratedSteps={bucket nEquil}", s!"expansionSteps={bucket nExpand}",
+                        s!"exactAbandonSteps={bucket nExactAbandon}", s!"equilibratedSteps={bucket nEquil}", s!"expansionSteps={bucket nExpand}", s!"reuseExpansionSteps={bucket nReuseExpand}",
                         s!"trans-kinds={transSeen.length}", if nResync > 0 then "resynced" else "chain-exact",
                         s!"abandonEvents={bucket nAbandonEv}", s!"keptEvents={bucket nKeptEv}", s!"exactSteps={bucket nExactSteps}"]
   return Res.ok (n ≥ 2 ∧ nsteps ≥ 2 ∧ (nSameRow + nSamePat + nFactored) ≥ 1) tags (if allExact then "exact" else "tolerance")
